@@ -25,7 +25,7 @@ ASSUMPTIONS = ["jump counts are scripted (Poisson.sample replaced), everything e
                "copulas: finite-variation margins; grids of at most 9 points per axis"]
 REQUIRED_COUNTERS = ["paths_checked", "fixed_date_paths", "jump_time_paths", "max_step_paths", "multi_date_paths",
                      "finer_grid_direct_calls", "coupled_paths", "paths_without_jump", "coarse_component_checks", "nd_diffusion_running_sums_nonzero_matrix", "finer_grid_gaps_multiple_of_the_cap",
-                     "steps_with_brownian_increment_checked"]
+                     "steps_with_brownian_increment_checked", "simulators_that_served_another_maturity_first"]
 MIN_NONTRIVIAL = {"quick": 60, "thorough": 800}
 THOROUGH_ROUNDS = 20      # the thorough tier runs the generators this many times (different seeds)
 SHARD_TIMEOUT = {"quick": 900, "thorough": 7200}
@@ -306,6 +306,13 @@ def _sim(case, R):
                 simulate = proc.simulate_one_path_with_coupling
             else:
                 proc.initialisation(product, max_step_epsilon=eps)
+                if mode != "fixed" and case["seed"] % 3 == 0:
+                    # history: the same simulation object served a product of ANOTHER maturity first (pre_computation takes the
+                    # product: nothing of the earlier one may stay baked into the object -- e.g. the function capping the steps)
+                    proc.pre_computation(npaths, _product(mode, dates, T * (0.37 if case["seed"] % 2 else 1.9)))
+                    rec.reset()
+                    R.hit("simulators_that_served_another_maturity_first")
+                    R.klass("history:another-maturity-first:" + mode)
                 proc.pre_computation(npaths, product)
                 target = proc
                 simulate = proc.simulate_one_path
